@@ -717,9 +717,9 @@ class C07(PropDef):
                     if name == "efimmap" and k != 0 and len(b) >= 4 and b[:4] == b"\0\0\0\0":
                         b = b"\x28" + b[1:]
                     cases.append("CTOR %s %s" % (name, hx(b)))
-        # framebuffer: the three types x colour-info lengths
+        # framebuffer: the three types x colour-info lengths (palettes up to and beyond 255 / 256 colours)
         for ty in (0, 1, 2, 3, 255):
-            for extra in ([0, 2, 3, 5, 8, 11, 14, 32] if ty == 0 else [6] if ty == 1 else [0]):
+            for extra in ([0, 2, 3, 5, 8, 11, 14, 32, 2 + 3 * 254, 2 + 3 * 255, 2 + 3 * 256, 2 + 3 * 257, 2 + 3 * 1000] if ty == 0 else [6] if ty == 1 else [0]):
                 for _ in range(3):
                     b = bytearray(rbytes(rng, 24 + extra))
                     b[21] = ty
